@@ -95,7 +95,7 @@ func c03(c *Check) {
 			continue
 		}
 		k := 0
-		for _, cs := range c.P.CallsIn(fn) {
+		for _, cs := range c.P.CallsInOwn(fn) {
 			f := c.P.resolveCallee(cs.Ins.Common())
 			if f == nil || !targets[f] {
 				continue
